@@ -95,6 +95,37 @@ check('C12', 'DESIGN.md 4/C12',
       'no handler, memory/graph growth must be bounded by the bytes '
       'received; finally every bystander completes a fixed exchange.', TB)
 
+TBC = ('Trusts python-engineio\'s client state machine (disconnect(), '
+       '_receive_packet, _trigger_event, _reset are the real code; only '
+       '_connect_*, _send_packet and the read/write loops are replaced on the '
+       'instance, vf/eio_client.py) and the independent peer codec.')
+check('C08', 'DESIGN.md 4/C08', MB,
+      'Histories of connect (namespaces/auth/wait variants) with scripted '
+      'server answers in generated order, per-namespace server DISCONNECTs, '
+      'emits on connected and unconnected namespaces, disconnect(), '
+      'transport loss (also mid binary packet / with callbacks outstanding), '
+      'server CLOSE and re-connections, both clients and handler styles, '
+      'against a model of what the server has accepted and not yet ended.',
+      TBC)
+check('C13', 'DESIGN.md 4/C13',
+      'exhaustive enumeration of the registry-shape space plus '
+      'Hypothesis-sampled names and arguments against a reference resolver '
+      'written from the documented order',
+      'All 2^6 x 2 x 2 x {4 classes, sync/coroutine} cells are executed on '
+      'every run; names/arguments are sampled; events also go through real '
+      'EVENT frames on the servers.', TB)
+check('C17', 'DESIGN.md 4/C17',
+      'exhaustive enumeration of (class, helper, optional-argument subset, '
+      'call style) plus Hypothesis-sampled values against a recorder with the '
+      'real signatures (inspect.signature().bind)',
+      'Every helper of the four namespace classes is called with every '
+      'subset of its optional arguments, positionally and by keyword; each '
+      'given argument must reach the same-named parameter unchanged, an '
+      'omitted namespace must become the registration namespace, the result '
+      'must come back unchanged.',
+      'Trusts inspect.signature of the current Server/Client classes as the '
+      'definition of "the same-named parameter".')
+
 NOT_BUILT = {}
 
 
